@@ -207,6 +207,18 @@ class ArgConst:
 
         def harvest(lst):
             nonlocal unknown
+            if isinstance(lst, ast.IfExp):
+                # [a, "--opt", v] if cond else [a]: the strings of either arm may be given
+                harvest(lst.body)
+                harvest(lst.orelse)
+                return
+            if isinstance(lst, ast.BinOp) and isinstance(lst.op, ast.Add):
+                harvest(lst.left)
+                harvest(lst.right)
+                return
+            if not isinstance(lst, (ast.List, ast.Tuple)):
+                unknown = True
+                return
             for e in lst.elts:
                 s = const_str(e)
                 if s is not None:
@@ -221,18 +233,12 @@ class ArgConst:
         else:
             for n in own_nodes(rs):
                 if isinstance(n, ast.Assign) and any(isinstance(t, ast.Name) and t.id == listvar for t in n.targets):
-                    if isinstance(n.value, ast.List):
-                        harvest(n.value)
-                    else:
-                        unknown = True
+                    harvest(n.value)
                 elif isinstance(n, ast.AugAssign) and isinstance(n.target, ast.Name) and n.target.id == listvar:
-                    if isinstance(n.value, ast.List):
-                        harvest(n.value)
-                    else:
-                        unknown = True
+                    harvest(n.value)
                 elif isinstance(n, ast.Call) and isinstance(n.func, ast.Attribute) and isinstance(n.func.value, ast.Name) \
                         and n.func.value.id == listvar:
-                    if n.func.attr == "extend" and n.args and isinstance(n.args[0], ast.List):
+                    if n.func.attr == "extend" and n.args:
                         harvest(n.args[0])
                     elif n.func.attr == "append" and n.args:
                         s = const_str(n.args[0])
